@@ -1,12 +1,15 @@
 import SJ.Drv.Base
 import SJ.Spec.Schema
 import SJ.Model.FromValue
+import SJ.Model.Typed
 import SJ.Spec.Ieee
 /-!
-`c16 <cfg> <schema> <value> <F0|F1> <ext> => <owned>|<borrowed>|<text>` (outcomes `OK:<tval>` / `ERR` / `PANIC`).
+`c16 <cfg> <schema> <value> <F0|F1> <ext> [<hex of to_string(value)>] => <owned>|<borrowed>|<text>` (outcomes `OK:<tval>` / `ERR` / `PANIC`).
 
-* model = `<fromValue>|<fromValueRef>|<third field as observed>` — there is no text-side typed model
-  yet, so the third field is echoed and can never disagree;
+* model = `<fromValue>|<fromValueRef>|<deTypedTop on the text>` — the third field is the typed text model
+  (`SJ.Model.Typed.deTypedTop`, `&str` source) run on the text the harness printed (`to_string(&value)`:
+  ryu/itoa output is external, so the text travels with the case); lines recorded before the text was
+  added (5 arguments) echo the third field;
 * spec (independent of the models): outside the statement's exclusions the three outcomes are all
   `ERR`, or all `OK` with equal results (f64 leaves compared only when the harness says `F1`).
 -/
@@ -112,15 +115,23 @@ def displayFormIn (exts : String) : Bool :=
     | [a, b, c] => a == c && a != b
     | _ => false
 
-def c16 : Handler := fun args impl =>
-  match args with
-  | [cfgTag, se, ve, flag, exts] =>
+/-- the text leg: `Seed(s).deserialize(&mut Deserializer::from_str(text))` then `end()` -/
+def showText (cfg : Cfg) (s : Schema) (text : Bytes) : String :=
+  match Model.Typed.deTypedTop { cfg := { po := cfg.po, fr := cfg.fr, ap := cfg.ap }, src := .str } s text with
+  | .ok t => "OK:" ++ t.enc
+  | .fuel => "FUEL"
+  | _ => "ERR"
+
+def c16core (cfgTag se ve flag exts : String) (text : Option String) (impl : String) : Out :=
     match Schema.decode se, decodeJV ve, parseExt exts with
     | some s, some v, some ext =>
       match impl.splitOn "|" with
       | [io, ib, it] =>
         let cfg := cfgOfTag cfgTag
-        let m := showR (fromValue cfg ext s v) ++ "|" ++ showR (fromValueRef cfg ext s v) ++ "|" ++ it
+        let third := match text with
+          | some h => (match bytesOfHex h with | some bs => showText cfg s bs | none => "BADHEX")
+          | none => it
+        let m := showR (fromValue cfg ext s v) ++ "|" ++ showR (fromValueRef cfg ext s v) ++ "|" ++ third
         let o := parseOutcome io
         let b := parseOutcome ib
         let t := parseOutcome it
@@ -129,6 +140,11 @@ def c16 : Handler := fun args impl =>
         | _, _, _ => { model := m, specs := spec s v (flag == "F1") o b t (hints cfg v o (displayFormIn exts)) }
       | _ => bad "fields"
     | _, _, _ => bad "decode"
+
+def c16 : Handler := fun args impl =>
+  match args with
+  | [cfgTag, se, ve, flag, exts] => c16core cfgTag se ve flag exts none impl
+  | [cfgTag, se, ve, flag, exts, text] => c16core cfgTag se ve flag exts (some text) impl
   | _ => bad "arity"
 
 def handlers : List (String × Handler) := [("c16", c16)]
